@@ -308,14 +308,19 @@ class Lexer(ITokenizer):
 		found_pair = [pair for pair in self._definition.quote if source.startswith(pair['open'], begin)]
 		pair = found_pair[0]
 		end = begin + len(pair['open'])
+		content_begin = end
 		while end < len(source):
 			index = source.find(pair['close'], end)
 			if index == -1:
 				break
 
-			prev = max(end, index - 1)
+			# 直前のバックスラッシュが奇数個の場合のみ、終端の引用符はエスケープされていると見做す
+			escapes = 0
+			while index - 1 - escapes >= content_begin and source[index - 1 - escapes] == '\\':
+				escapes += 1
+
 			end = index + len(pair['close'])
-			if not (source[prev] == '\\'):
+			if escapes % 2 == 0:
 				break
 
 		value = source[begin:end]
